@@ -7,6 +7,7 @@ import (
 	"fmt"
 	"go/ast"
 	"go/parser"
+	"go/printer"
 	"go/token"
 	"os"
 	"path/filepath"
@@ -333,6 +334,52 @@ func mandatoryTxt(repo string) []string {
 }
 
 // ---- ship/handshake.go: design facts of the handshake timer
+// hub/hub_connections.go keepThisConnection: the comparison used for incoming and for outgoing connections and
+// what happens when no connection is registered yet
+func keepRule(repo string) [][2]string {
+	f := parse(repo, "hub/hub_connections.go")
+	fd := funcDecl(f, "keepThisConnection")
+	res := [][2]string{}
+	if fd == nil {
+		return res
+	}
+	txt := func(n ast.Node) string {
+		var b strings.Builder
+		_ = printer.Fprint(&b, fset, n)
+		return strings.Join(strings.Fields(b.String()), " ")
+	}
+	noneReg := "?"
+	ast.Inspect(fd.Body, func(x ast.Node) bool {
+		ifs, ok := x.(*ast.IfStmt)
+		if !ok {
+			return true
+		}
+		c := txt(ifs.Cond)
+		if c == "incomingRequest" && ifs.Else != nil {
+			pick := func(b *ast.BlockStmt) string {
+				if len(b.List) == 1 {
+					if as, ok := b.List[0].(*ast.AssignStmt); ok && len(as.Lhs) == 1 && txt(as.Lhs[0]) == "keep" {
+						return txt(as.Rhs[0])
+					}
+				}
+				return "?"
+			}
+			res = append(res, [2]string{"incoming", pick(ifs.Body)})
+			if eb, ok := ifs.Else.(*ast.BlockStmt); ok {
+				res = append(res, [2]string{"outgoing", pick(eb)})
+			}
+		}
+		if c == "existingC == nil" && len(ifs.Body.List) == 1 {
+			if r, ok := ifs.Body.List[0].(*ast.ReturnStmt); ok && len(r.Results) == 1 {
+				noneReg = txt(r.Results[0])
+			}
+		}
+		return true
+	})
+	res = append(res, [2]string{"none-registered", noneReg})
+	return res
+}
+
 func containsCall(n ast.Node, name string) bool {
 	found := false
 	ast.Inspect(n, func(x ast.Node) bool {
@@ -739,6 +786,13 @@ func main() {
 			w(", ")
 		}
 		w("%s", leanStr(p))
+	}
+	w("]\n\n/-- hub/hub_connections.go keepThisConnection: keep the new connection iff ... -/\ndef keepRule : List (String × String) :=\n  [")
+	for i, p := range keepRule(*repo) {
+		if i > 0 {
+			w(", ")
+		}
+		w("(%s, %s)", leanStr(p[0]), leanStr(p[1]))
 	}
 	w("]\n\n")
 	flush("MiscFacts.lean")
